@@ -1,10 +1,10 @@
 package main
 
 import (
-	"runtime/pprof"
 	"flag"
 	"fmt"
 	"os"
+	"runtime/pprof"
 	"strings"
 )
 
